@@ -12,6 +12,7 @@ import QV.Proofs.A2A7
 import QV.Proofs.A2A8
 import QV.Proofs.A2X3
 import QV.Proofs.A2X4
+import QV.Proofs.A2X5
 import QV.Model.Front
 /-!
 # C01 – Boolean expressions mean what the Python source means
@@ -1273,5 +1274,59 @@ theorem C01_builtins_ordchr_partial (st : RSt) (a a' : SExp) (ha : visitE st a =
   rcases hE with hE | hE
   · rw [h1] at hE; cases hE; rfl
   · rw [h2] at hE; cases hE; rfl
+
+open QV.A2A in
+/-- **C01_table_partial** – a variable index into a table: `(x0, x1, …, xn)[i]` with a tuple literal, and `T[a[b]]` with `T`
+a constant tuple of the environment.  (a) From the model function: `visit_Subscript` returns `tableChain ie x0 [x1 … xn]`
+over the elements **as they stand** (this branch visits neither the elements nor the index), the left fold
+`xn if ie == n else (… (x1 if ie == 1 else x0))`, for an index `i` that is a variable and no constant of the environment,
+for an index that is itself a subscript, and for a table found by name (`T ≠ "Tuple"`) among the constants.  (`T[i]` with
+both a name takes the `L[i]` branch of `C01_index1_partial` instead; a *list* literal `[x0, …][i]` is refused:
+`Exception("Not a tuple …")`, see the example.)  (b) For **every table length** `n + 1 < 2^16` and every value `xv` of the
+index: if the elements have the values `vals` under `Sem.semW`, all of one type, the chain has the value
+`pyIndex1 vals xv` when `xv ≤ n`; **out of range** (`xv > n`, where python raises `IndexError`) it has the value of
+element `0` - no test matches and the innermost `else` is `x0`.  With `Qint` elements of different widths (constants
+`3, 5` have widths `2, 4`) the if-expressions of `Sem.semW` widen: the chain has the selected element's number at
+the largest width among the elements (`withWidth (maxWidth 0 vals)`).  Every element must have a value (if-expressions of
+`semW` are strict).  *Partial*: at the top of an expression, not inside `ast2ast_if_preserved`. -/
+theorem C01_table_partial (st : RSt) (x : SExp) (xs : List SExp) :
+    (∀ i, lookup st.consts i = none →
+      visitE st (.sub (.tuple (x :: xs)) (.name i)) = .ok (tableChain (.name i) x xs)) ∧
+    (∀ a b, visitE st (.sub (.tuple (x :: xs)) (.sub a b)) = .ok (tableChain (.sub a b) x xs)) ∧
+    (∀ T cv a b, T ≠ "Tuple" → lookup st.consts T = some cv → cv.asNode? = some (.tuple (x :: xs)) →
+      visitE st (.sub (.name T) (.sub a b)) = .ok (tableChain (.sub a b) x xs)) ∧
+    ∀ (σ : Sem.SEnv) (ie : SExp) (vals : List Sem.SVal) (wi xv : Nat),
+      Sem.semW σ (toP ie) = some (.int wi xv) → xs.length < 65535 →
+      (∀ Tv, List.Forall₂ (fun e v => Sem.semW σ (toP e) = some v ∧ tyOf v = Tv) (x :: xs) vals →
+        Sem.semW σ (toP (tableChain ie x xs)) = pyIndex1 vals (if xv ≤ xs.length then xv else 0)) ∧
+      (∀ b, List.Forall₂ (fun e v => Sem.semW σ (toP e) = some v ∧ isInt v = b) (x :: xs) vals →
+        Sem.semW σ (toP (tableChain ie x xs))
+          = (pyIndex1 vals (if xv ≤ xs.length then xv else 0)).map (withWidth (maxWidth 0 vals))) := by
+  refine ⟨fun i hi => visitE_table_lit st i x xs hi, fun a b => visitE_table_lit_sub st a b x xs,
+    fun T cv a b hT hc hn => visitE_table_const st T cv a b x xs hT hc hn, ?_⟩
+  intro σ ie vals wi xv hi hlen
+  exact ⟨fun Tv hv => tableChain_selects_sameTy σ ie x xs vals Tv wi xv hi hlen hv,
+    fun b hv => tableChain_selects σ ie x xs vals b wi xv hi hlen hv⟩
+
+open QV.A2A in
+/-- `(3, 1, 2)[i]` with `i : Qint[2]`: the chain the rewriter returns, the hypotheses of `C01_table_partial` (the
+three constants are `Qint[2]` values), and the values of the chain for `i = 0 … 3` -
+`3, 1, 2` and, out of range, element 0 again; the list literal `[3, 1, 2][i]` is refused -/
+example :
+    let st : RSt := initSt [("i", .sub (.name "Qint") (.const (.int 2)))]
+    let tbl : List SExp := [.const (.int 3), .const (.int 1), .const (.int 2)]
+    let E : SExp := .ite (.cmp "Eq" (.name "i") (.const (.int 2))) (.const (.int 2))
+      (.ite (.cmp "Eq" (.name "i") (.const (.int 1))) (.const (.int 1)) (.const (.int 3)))
+    let σ : Nat → Sem.SEnv := fun k s => if s = "i" then some (.int 2 k) else none
+    let vals : List Sem.SVal := [.int 2 3, .int 2 1, .int 2 2]
+    lookup st.consts "i" = none ∧ visitE st (.sub (.tuple tbl) (.name "i")) = .ok E ∧
+      tableChain (.name "i") (.const (.int 3)) [.const (.int 1), .const (.int 2)] = E ∧
+      visitE st (.sub (.list tbl) (.name "i")) = .error (.exc "Exception" "Not a tuple in ast2ast visit subscript") ∧
+      (∀ k, List.Forall₂ (fun e v => Sem.semW (σ k) (toP e) = some v ∧ tyOf v = some 2) tbl vals) ∧
+      pyIndex1 vals 1 = some (.int 2 1) ∧
+      Sem.semW (σ 0) (toP E) = some (.int 2 3) ∧ Sem.semW (σ 1) (toP E) = some (.int 2 1) ∧
+      Sem.semW (σ 2) (toP E) = some (.int 2 2) ∧ Sem.semW (σ 3) (toP E) = some (.int 2 3) := by
+  refine ⟨rfl, rfl, rfl, rfl, fun k => .cons ⟨rfl, rfl⟩ (.cons ⟨rfl, rfl⟩ (.cons ⟨rfl, rfl⟩ .nil)),
+    rfl, by decide, by decide, by decide, by decide⟩
 
 end QV.C01
